@@ -59,6 +59,14 @@ from processscheduler.util import (
 )
 
 
+def _scheduled_quantity(task, quantity):
+    """the quantity a task loads to/unloads from a buffer: an optional task
+    that is not scheduled does not change the buffer level"""
+    if task.optional:
+        return z3.If(task._scheduled, quantity, 0)
+    return quantity
+
+
 #
 # Solver class definition
 #
@@ -315,7 +323,7 @@ class SchedulingSolver(BaseModelWithJson):
                         x,
                         z3.If(
                             x == t._start,
-                            f(x) == -buffer._unloading_tasks[t],
+                            f(x) == _scheduled_quantity(t, -buffer._unloading_tasks[t]),
                             f(x) == 0,
                         ),
                     )
@@ -332,7 +340,9 @@ class SchedulingSolver(BaseModelWithJson):
                     asst = z3.ForAll(
                         x,
                         z3.If(
-                            x == t._end, f(x) == +buffer._loading_tasks[t], f(x) == 0
+                            x == t._end,
+                            f(x) == _scheduled_quantity(t, +buffer._loading_tasks[t]),
+                            f(x) == 0,
                         ),
                     )
                     self.append_z3_assertion(asst)
@@ -368,13 +378,19 @@ class SchedulingSolver(BaseModelWithJson):
                     self.append_z3_assertion(
                         buffer_mapping
                         == z3.Store(
-                            buffer_mapping, t._start, -buffer._unloading_tasks[t]
+                            buffer_mapping,
+                            t._start,
+                            _scheduled_quantity(t, -buffer._unloading_tasks[t]),
                         )
                     )
                 for t in buffer._loading_tasks:
                     self.append_z3_assertion(
                         buffer_mapping
-                        == z3.Store(buffer_mapping, t._end, +buffer._loading_tasks[t])
+                        == z3.Store(
+                            buffer_mapping,
+                            t._end,
+                            _scheduled_quantity(t, +buffer._loading_tasks[t]),
+                        )
                     )
                 # and, for the other, the buffer level i+1 is the buffer level i +/- the buffer change
                 for i in range(len(buffer._buffer_levels) - 1):
@@ -617,6 +633,14 @@ class SchedulingSolver(BaseModelWithJson):
                 new_buffer_solution.level,
                 new_buffer_solution.level_change_times,
             ) = clean_buffer_levels(level_values, change_level_times)
+            # optional tasks that are not scheduled are moved to the past, where
+            # they leave the level unchanged: they are not part of the report
+            while (
+                new_buffer_solution.level_change_times
+                and new_buffer_solution.level_change_times[0] < 0
+            ):
+                new_buffer_solution.level_change_times.pop(0)
+                new_buffer_solution.level.pop(1)
 
             solution.add_buffer_solution(new_buffer_solution)
         # process indicators
